@@ -1,4 +1,5 @@
 import Proofs.Pareto
+import Proofs.ParetoRanked
 
 /-!
 # C11 — Non-dominated set and Pareto front are exact
@@ -55,6 +56,65 @@ theorem C11_checker (pts : List Vec) (sel : List Nat) :
     checkSel pts sel = true ↔ NdsSpec pts sel :=
   checkSel_iff pts sel
 
+/-! ### ranked peeling (`non_dominated_set_ranked`) — `ord` is what `argsort` does to the
+remaining rows in each round; `OrdOK` = it neither loses nor invents a row. -/
+
+/-- **C11 (ranked, refinement).**  The peeling loop returns exactly the first `req` indices
+of the concatenation of the successive fronts (`fronts` is the specification: front `k+1` is
+the non-dominated set of what remains once fronts `1..k` are removed): the result is a union
+of complete fronts plus a prefix of the next one. -/
+theorem C11_ranked_fronts (ord : List Row → List Row) (hord : OrdOK ord) (pts : List Vec)
+    (req : Nat) :
+    rankedIdx ord pts req = ((fronts ord pts.length (rowsOf pts)).flatten).take req := by
+  have := peel_eq_fronts hord req pts.length [] (rowsOf pts) (Nat.zero_le _)
+    (by rw [rowsOf_length]; exact Nat.le_refl _)
+  simpa [rankedIdx] using this
+
+/-- **C11 (ranked, count).**  Exactly `min req n` points are returned. -/
+theorem C11_ranked_count (ord : List Row → List Row) (hord : OrdOK ord) (pts : List Vec)
+    (req : Nat) : (rankedIdx ord pts req).length = min req pts.length := by
+  rw [C11_ranked_fronts ord hord, List.length_take,
+    (fronts_perm hord pts.length (rowsOf pts) (by rw [rowsOf_length]; exact Nat.le_refl _)).length_eq]
+  simp [rowsOf_length]
+
+/-- **C11 (ranked, well-formed).**  Valid, pairwise distinct indices. -/
+theorem C11_ranked_wf (ord : List Row → List Row) (hord : OrdOK ord) (pts : List Vec)
+    (req : Nat) : (rankedIdx ord pts req).Nodup ∧ ∀ i ∈ rankedIdx ord pts req, i < pts.length := by
+  have hp := fronts_perm hord pts.length (rowsOf pts) (by rw [rowsOf_length]; exact Nat.le_refl _)
+  rw [rowsOf_idx] at hp
+  rw [C11_ranked_fronts ord hord]
+  constructor
+  · exact List.Nodup.sublist (List.take_sublist _ _) (hp.nodup_iff.2 List.nodup_range)
+  · intro i hi
+    exact List.mem_range.1 (hp.mem_iff.1 (List.mem_of_mem_take hi))
+
+/-- **C11 (ranked, front by front).**  A point is never chosen before a point that strictly
+dominates it: if `i` is chosen and `pts[j]` dominates `pts[i]`, then `j` is chosen too. -/
+theorem C11_ranked_closed (ord : List Row → List Row) (hord : OrdOK ord) (pts : List Vec)
+    (req : Nat) (i : Nat) (hi : i ∈ rankedIdx ord pts req) (j : Nat) (v w : Vec)
+    (hv : pts[i]? = some v) (hw : pts[j]? = some w) (hdom : dominates w v = true) :
+    j ∈ rankedIdx ord pts req := by
+  rw [C11_ranked_fronts ord hord] at hi ⊢
+  exact fronts_closed hord pts.length (rowsOf pts) (by rw [rowsOf_length]; exact Nat.le_refl _)
+    (rowsOf_nodup pts) req i hi j v w (mem_rowsOf.2 hv) (mem_rowsOf.2 hw) hdom
+
+/-- **C11 (ranked, first front).**  The first front of the specification is an exact
+Pareto-optimal selection of the whole set, i.e. `fronts` really peels Pareto fronts. -/
+theorem C11_first_front (ord : List Row → List Row) (hord : OrdOK ord) (pts : List Vec) :
+    NdsSpec pts (ndsRows ord (rowsOf pts)) := by
+  have h := sweep_nil_spec wdRow wdRow_pre (ord (rowsOf pts))
+  have hrows : ∀ r, r ∈ ord (rowsOf pts) ↔ r ∈ permuteBy pts (List.range pts.length) := by
+    intro r
+    rw [hord, mem_permuteBy]
+    constructor
+    · intro hr
+      have := mem_rowsOf.1 (show (r.1, r.2) ∈ rowsOf pts from hr)
+      exact ⟨List.mem_range.2 (List.getElem?_eq_some_iff.1 this).1, this⟩
+    · rintro ⟨_, hr⟩; exact mem_rowsOf.2 hr
+  exact ndsSpec_of_rows pts (List.range pts.length) (fun i hi => List.mem_range.2 hi)
+    (fun i hi => List.mem_range.1 hi) _ h.1
+    (fun x hx => h.2.1 x ((hrows x).2 hx)) (fun r hr => (hrows r).1 (h.2.2 r hr))
+
 /-! non-vacuity: a concrete set with ties, a duplicate optimal point and weak dominance -/
 example : OrderOK 4 [2, 0, 3, 1] := by
   constructor
@@ -64,5 +124,11 @@ example : OrderOK 4 [2, 0, 3, 1] := by
 example : ndsIdx [[1, 2], [2, 1], [1, 2], [2, 2]] [2, 0, 3, 1] = [2, 1] := by decide +kernel
 example : checkSel [[1, 2], [2, 1], [1, 2], [2, 2]] [2, 1] = true := by decide +kernel
 example : checkSel [[1, 2], [2, 1], [1, 2], [2, 2]] [0, 2, 1] = false := by decide +kernel
+
+example : OrdOK (fun l => l.reverse) := fun l r => List.mem_reverse
+example : rankedIdx (fun l => l.reverse) [[1, 2], [2, 1], [1, 2], [2, 2], [3, 3]] 3 = [1, 2, 0] := by
+  decide +kernel
+example : fronts (fun l => l.reverse) 5 (rowsOf [[1, 2], [2, 1], [1, 2], [2, 2], [3, 3]])
+    = [[1, 2], [0], [3], [4]] := by decide +kernel
 
 end DH.Pareto
